@@ -209,7 +209,9 @@ def kernel_job(I, job, res, prefixes, budget, deadline):
             rr, m = I.model_for(None)
             if m is None: return
             ca, cb = ul.conc_entries(m, ae), ul.conc_entries(m, be)
-            res['candidates'].append({'role': 'kernel-panics', 'case': {'op': 'numeric_op', 'fn': job['op'], 'a': ul.numeric_json(I, rt.mval(m, x), ca), 'b': ul.numeric_json(I, rt.mval(m, y), cb),
+            msg = str(r).lower()
+            role = 'kernel-overflow' if 'overflow' in msg else ('kernel-division-by-zero' if 'division by zero' in msg or 'denominator' in msg else 'kernel-panics')
+            res['candidates'].append({'role': role, 'case': {'op': 'numeric_op', 'fn': job['op'], 'a': ul.numeric_json(I, rt.mval(m, x), ca), 'b': ul.numeric_json(I, rt.mval(m, y), cb),
                                                                      'powers': [p for _, p, _ in ca + cb]}, 'detail': f'{job["profile"]}: {r}'})
             return
         if kind in ('ok', 'bound'): res['discharged'] += 1; res.witness('kernel-no-panic')
@@ -231,7 +233,7 @@ def display_job(I, job, res, prefixes, budget, deadline):
             rr, m = I.model_for(None)
             if m is None: return
             ce = ul.conc_entries(m, ents)
-            res['candidates'].append({'role': 'unit-display-panics', 'case': {'op': 'unit_display', 'unit': ul.entries_json(I, ce), 'powers': [p for _, p, _ in ce]}, 'detail': f'{job["profile"]}: {r}'})
+            res['candidates'].append({'role': 'unit-display-overflow' if 'overflow' in str(r).lower() else 'unit-display-panics', 'case': {'op': 'unit_display', 'unit': ul.entries_json(I, ce), 'powers': [p for _, p, _ in ce]}, 'detail': f'{job["profile"]}: {r}'})
             return
         if kind in ('ok', 'bound'): res['discharged'] += 1; res.witness('unit-displays')
     harness.explore(I, res, entry, on_path, prefixes, budget, deadline)
